@@ -37,6 +37,8 @@ func compare(h histlib.History) (string, string, histlib.RunStats, error) {
 	switch {
 	case len(with.AppBlocked) > 0 && len(without.AppBlocked) == 0:
 		return "app-statement-blocked", fmt.Sprintf("with litestream idle, application statements fail with SQLITE_BUSY (they succeed without litestream): %v", with.AppBlocked), st, nil
+	case len(with.LocksDropped) > 0:
+		return "posix-locks-dropped", fmt.Sprintf("a litestream operation closed a descriptor on the database file (or its -shm) inside the process that holds SQLite locks on it: all of the process's POSIX locks on the file are gone (another process may now treat the database as unused, delete the WAL, or checkpoint under a reader): %v", with.LocksDropped), st, nil
 	case with.FreshErr != "" && without.FreshErr == "":
 		return "fresh-connection-fails", "a connection opened after the history cannot read the source with litestream: " + with.FreshErr, st, nil
 	case with.Digest != "" && with.FreshDigest != with.Digest && without.FreshDigest == without.Digest:
@@ -64,6 +66,7 @@ func main() {
 		if !ok {
 			os.Exit(3)
 		}
+		histlib.WatchLocks = true
 		sig, what, _, err := compare(h)
 		fmt.Println("history:", h.String(), "err:", err)
 		if sig != "" {
@@ -129,6 +132,38 @@ func main() {
 	}
 	close(ch)
 	wg.Wait()
+	// serial phase: one history at a time, with the POSIX locks this process holds on the
+	// database file and its -shm observed around every litestream operation
+	histlib.WatchLocks = true
+	serial := 16
+	if o.Tier == "thorough" {
+		serial = 150
+	}
+	lrnd := hx.NewRand(o.Seed + 7919)
+	for i := 0; i < serial; i++ {
+		h := histlib.GenC14(lrnd.Fork(), o.Tier == "thorough")
+		with, st, err := histlib.RunFinal(h)
+		if err != nil {
+			res.Count("harness-error")
+			continue
+		}
+		res.Case("locks: "+h.String(), st.Acks > 0)
+		res.Count("lock-watch-histories")
+		if len(with.LocksDropped) > 0 {
+			pred := func(c histlib.History) bool {
+				w, _, e := histlib.RunFinal(c)
+				return e == nil && len(w.LocksDropped) > 0
+			}
+			if !pred(h) {
+				res.Count("lock-watch-not-reproduced")
+				continue
+			}
+			sh := histlib.Shrink(h, pred, 40)
+			res.AddFinding("violation", "C14/posix-locks-dropped", fmt.Sprintf("a litestream operation closed a descriptor on the database file (or its -shm) inside the process that holds SQLite locks on it: all of the process's POSIX locks on the file are gone (another process may then treat the database as unused and delete the WAL it is still using): %v", with.LocksDropped),
+				map[string]any{"history": sh, "text": sh.String(), "original": h})
+		}
+	}
+	histlib.WatchLocks = false
 	_ = json.Marshal
 	if err := res.Write(o.Out); err != nil {
 		hx.Fatal(err)
